@@ -25,6 +25,7 @@ pub enum Family {
   Wide,
   Huge,
   ModDense,
+  Siblings,
 }
 
 #[derive(Clone, Copy, Debug)]
@@ -312,6 +313,107 @@ pub fn gen_absorbing_dense(src: &mut Src, opts: &LayoutOpts) -> GenLayout {
   finish(src, layout, "absorbing-dense", &extra, opts, src_flag_foreign(opts))
 }
 
+// *siblings*: 3-7 mappings over a pool of five keys (three modifier-like keys: standard
+// modifiers and 0-2 keys such as CAPSLOCK; two ordinary keys) in which any key may end a trigger. About half of the
+// mappings are derived from an earlier one: same final key, one trigger key more or fewer,
+// absorbing list, output shape and repeat mode drawn anew. That gives the *relations* between
+// mappings that multi-step defects depend on - a chord and its plainer version, two chords that
+// differ in one held key, a key that is a modifier here and a trigger there, a mapping without
+// output beside a key-producing one on the same key - in a space small enough for the sweep.
+pub fn gen_siblings(src: &mut Src, opts: &LayoutOpts) -> GenLayout {
+  // three modifier-like keys: standard modifiers (a plain press of one lifts nothing) and 0-2
+  // keys such as CAPSLOCK (which are ordinary keys to the mapper unless mapped)
+  let n_like = src.weighted(&[40, 45, 15]);
+  let mut keys: Vec<KeyCode> = src.distinct(&[LEFTSHIFT, RIGHTALT, LEFTCTRL, RIGHTSHIFT], 3 - n_like);
+  keys.extend(src.distinct(&[CAPSLOCK, TAB], n_like));
+  keys.extend(src.distinct(&[A, B, Q], 2));
+  let modlike: Vec<KeyCode> = keys[..3].to_vec();
+  let ordinary: Vec<KeyCode> = keys[3..].to_vec();
+  let n = src.range(3, 7);
+  let mut mappings: Vec<Mapping> = Vec::new();
+  let mut next_tag = 0usize;
+  for i in 0..n {
+    let (mut prefix, final_key): (Vec<KeyCode>, KeyCode) = if i > 0 && src.chance(55) {
+      let base = &mappings[src.below(i)];
+      let fk = *base.from.last().unwrap();
+      let mut prefix: Vec<KeyCode> = base.from[..base.from.len() - 1].to_vec();
+      match src.weighted(&[50, 25, 25]) {
+        0 => {
+          let cands: Vec<KeyCode> = keys.iter().cloned().filter(|k| *k != fk && !prefix.contains(k)).collect();
+          // mostly a modifier-like key
+          let ml: Vec<KeyCode> = cands.iter().cloned().filter(|k| modlike.contains(k)).collect();
+          if !ml.is_empty() && src.chance(80) {
+            let k = src.pick(&ml);
+            if src.chance(50) { prefix.push(k) } else { prefix.insert(0, k) }
+          } else if !cands.is_empty() {
+            prefix.push(src.pick(&cands));
+          }
+        }
+        1 => {
+          if !prefix.is_empty() {
+            let j = src.below(prefix.len());
+            prefix.remove(j);
+          }
+        }
+        _ => {}
+      }
+      (prefix, fk)
+    } else {
+      let fk = if src.chance(75) { src.pick(&ordinary) } else { src.pick(&modlike) };
+      let mut avail: Vec<KeyCode> = modlike.iter().cloned().filter(|k| *k != fk).collect();
+      if src.chance(15) {
+        avail.extend(ordinary.iter().cloned().filter(|k| *k != fk));
+      }
+      let np = src.weighted(&[25, 45, 30]).min(avail.len());
+      (src.distinct(&avail, np), fk)
+    };
+    prefix.truncate(3);
+    let mut mod_pool: Vec<KeyCode> = prefix.clone();
+    mod_pool.push(modlike[0]);
+    mod_pool.push(modlike[1]);
+    let to: Vec<KeyCode> = match src.weighted(&[30, 15, 12, 25, 8, 10]) {
+      0 => {
+        next_tag += 1;
+        vec![TAGS[next_tag - 1]]
+      }
+      1 => vec![],
+      2 => vec![src.pick(&mod_pool)],
+      3 => {
+        next_tag += 1;
+        vec![src.pick(&mod_pool), TAGS[next_tag - 1]]
+      }
+      4 => {
+        next_tag += 1;
+        vec![TAGS[next_tag - 1], src.pick(&mod_pool)]
+      }
+      _ => vec![src.pick(&ordinary)],
+    };
+    let mut to_d: Vec<KeyCode> = Vec::new();
+    for k in to {
+      if !to_d.contains(&k) {
+        to_d.push(k);
+      }
+    }
+    let mut absorbing = Vec::new();
+    if opts.allow_absorbing && !prefix.is_empty() && src.chance(60) {
+      for k in &prefix {
+        if src.chance(70) {
+          absorbing.push(*k);
+        }
+      }
+      if absorbing.is_empty() {
+        absorbing.push(prefix[0]);
+      }
+    }
+    let repeat = gen_repeat(src, &[modlike[0], F1, modlike[2]], &[65, 10, 25], i as i32);
+    let mut from = prefix;
+    from.push(final_key);
+    mappings.push(Mapping { from, to: to_d, repeat, absorbing });
+  }
+  let layout = Layout { mappings };
+  finish(src, layout, "siblings", &keys, opts, src_flag_foreign(opts))
+}
+
 fn src_flag_foreign(opts: &LayoutOpts) -> bool {
   opts.max_alphabet > 4
 }
@@ -329,6 +431,7 @@ pub fn gen_family(src: &mut Src, fam: Family, opts: &LayoutOpts) -> GenLayout {
     Family::Wide => gen_wide(src, opts),
     Family::Huge => gen_huge(src, opts),
     Family::ModDense => gen_mod_dense(src, opts),
+    Family::Siblings => gen_siblings(src, opts),
   };
   // key-code diversity: the small readable pools are relabelled onto the whole key space
   if fam != Family::Huge && src.chance(35) {
